@@ -136,8 +136,13 @@ JudgePollMint(Sx, e) ==
   IN J(VerdictTags(e.r.ok, e.r.panic, c, FALSE, "C03") \cup replyTags, {Sx, Ss})
 
 JudgeMeltQuote(Sx, e) ==
-  LET c == MeltQuoteCauses(Sx, e.a) IN
-  J(VerdictTags(e.r.ok, e.r.panic, c, FALSE, "C16"),
+  LET c == MeltQuoteCauses(Sx, e.a)
+      \* C02: what the quote asks the user to burn covers what will be paid out (msat amounts round up, never down)
+      toPay == IF e.a.kind = "mpp" THEN e.a.msat ELSE e.a.invmsat
+      amtTags == IF e.r.ok /\ e.a.kind \in {"ext", "mpp"} /\ e.r.amt * 1000 < toPay
+                 THEN {<<"C02", "quote-amount-below-amount-to-pay">>} ELSE {}
+  IN
+  J(VerdictTags(e.r.ok, e.r.panic, c, MeltQuoteDontCare(Sx, e.a), "C16") \cup amtTags,
     IF e.r.ok THEN {NewMeltQuote(Sx, e.r.q, e.a, e.r)} ELSE {Sx})
 
 JudgeMelt(Sx, e) ==
